@@ -239,6 +239,7 @@ type (
 )
 
 func (t *TerminalParamDetails) parse(count uint8, body []byte) error {
+	*t = TerminalParamDetails{ParamParseBeforeFunc: t.ParamParseBeforeFunc} // 复用时不保留上一次解析的参数
 	index := 0
 	if len(t.OtherContent) == 0 {
 		t.OtherContent = make(map[uint32]ParamContent[[]byte])
